@@ -178,4 +178,12 @@ Section ClosedReader.
   Lemma closed_ignores_input evs p :
     p_closed p = true -> proto_step cfg stream_headers ws_token ws_ext ws_sends (IData evs) p = (p, [], Ok tt).
   Proof. intro C. cbn [proto_step]. unfold bind, get. cbn beta iota. rewrite C. reflexivity. Qed.
+  (* however much the transport still delivers, in however many reads: nothing is written, nothing changes *)
+  Lemma closed_quiet_run evss : forall p,
+    p_closed p = true ->
+    proto_run cfg stream_headers ws_token ws_ext ws_sends p (map IData evss) = map (fun _ => ([], Ok tt)) evss.
+  Proof.
+    induction evss as [|evs r IH]; intros p C; [reflexivity|].
+    cbn [map proto_run]. rewrite (closed_ignores_input evs p C). f_equal. apply IH. exact C.
+  Qed.
 End ClosedReader.
